@@ -367,8 +367,9 @@ Definition sync_block (cm : db) (mem : avgcache) (b : block) (s : db) : outcome 
   let! s := if c_V20HeightActivation c <=? h
             then match gradedS with Some v => of_res (pay_winners s ts (v_winners v)) | None => Done s end
             else Done s in
-  let s := if (c_V20DevRewardsHeightActivation c <=? h) && (h mod SnapshotRate =? 0)
-           then snd (developers_payouts h ts s) else s in
+  (* the error of DevelopersPayouts fails the block (it used to be only traced: known_findings, fixed) *)
+  let! s := if (c_V20DevRewardsHeightActivation c <=? h) && (h mod SnapshotRate =? 0)
+            then of_res (fst (developers_payouts h ts s)) else Done s in
   Done (s, mem').
 
 (* ---- the body of the DBlockSync loop for one height --------------------------------------------------------- *)
